@@ -10,6 +10,8 @@ var commands = map[string]func([]string){
 	"scan":       cmdScan,
 	"gen":        cmdGen,
 	"transplant": cmdTransplant,
+	"illtype":    cmdIlltype,
+	"illscan":    cmdIllscan,
 	"infos":      cmdInfos,
 	"c02":        cmdC02,
 	"c03":        cmdC03,
